@@ -96,3 +96,312 @@ func init() {
 			}}
 	})
 }
+
+// ---------------------------------------------------------------------------
+// more client helpers
+
+func (w *World) indexCall(n *Node, kind, payload string, f func(r *raft.Raft) raft.IndexFuture) *Call {
+	return w.client(n, kind, payload, func(c *Call, r *raft.Raft) {
+		fu := f(r)
+		c.Err = fu.Error()
+		if c.Err == nil {
+			c.Index = fu.Index()
+		}
+	})
+}
+
+func (w *World) addVoter(n *Node, id int, prev uint64) *Call {
+	return w.indexCall(n, "addvoter", nodeName(id), func(r *raft.Raft) raft.IndexFuture {
+		return r.AddVoter(raft.ServerID(nodeName(id)), raft.ServerAddress(nodeName(id)), prev, 0)
+	})
+}
+func (w *World) addNonvoter(n *Node, id int, prev uint64) *Call {
+	return w.indexCall(n, "addnonvoter", nodeName(id), func(r *raft.Raft) raft.IndexFuture {
+		return r.AddNonvoter(raft.ServerID(nodeName(id)), raft.ServerAddress(nodeName(id)), prev, 0)
+	})
+}
+func (w *World) demote(n *Node, id int, prev uint64) *Call {
+	return w.indexCall(n, "demote", nodeName(id), func(r *raft.Raft) raft.IndexFuture {
+		return r.DemoteVoter(raft.ServerID(nodeName(id)), prev, 0)
+	})
+}
+func (w *World) remove(n *Node, id int, prev uint64) *Call {
+	return w.indexCall(n, "remove", nodeName(id), func(r *raft.Raft) raft.IndexFuture {
+		return r.RemoveServer(raft.ServerID(nodeName(id)), prev, 0)
+	})
+}
+
+func (w *World) snapshot(n *Node) *Call {
+	return w.client(n, "snapshot", "", func(c *Call, r *raft.Raft) {
+		f := r.Snapshot()
+		c.Err = f.Error()
+	})
+}
+
+func (w *World) verify(n *Node) *Call {
+	return w.client(n, "verify", "", func(c *Call, r *raft.Raft) {
+		c.Extra = r.CurrentTerm()
+		c.Err = r.VerifyLeader().Error()
+	})
+}
+
+func (w *World) transfer(n *Node, to int) *Call {
+	return w.client(n, "transfer", "", func(c *Call, r *raft.Raft) {
+		if to < 0 {
+			c.Err = r.LeadershipTransfer().Error()
+		} else {
+			c.Err = r.LeadershipTransferToServer(raft.ServerID(nodeName(to)), raft.ServerAddress(nodeName(to))).Error()
+		}
+	})
+}
+
+func (w *World) isolate(id int, on bool) {
+	for _, o := range w.nodes {
+		if o.id == id {
+			continue
+		}
+		if on {
+			w.blocked[[2]int{id, o.id}] = true
+			w.blocked[[2]int{o.id, id}] = true
+		} else {
+			delete(w.blocked, [2]int{id, o.id})
+			delete(w.blocked, [2]int{o.id, id})
+		}
+	}
+}
+
+// a follower (lowest id that is up and not the leader)
+func (w *World) aFollower() *Node {
+	l := w.leader()
+	for _, n := range w.nodes {
+		if n.up && n != l && n.r != nil {
+			return n
+		}
+	}
+	return nil
+}
+
+func stepDo(name string, when func(w *World) bool, do func(w *World)) Step {
+	return Step{Name: name, When: when, Do: do}
+}
+
+func whenStableCallsDone(w *World) bool { return whenStable(w) && w.callsDone() }
+
+// whenLeaderQuiet: stable leader, calls done, and the leader has nothing in flight.
+func whenSettled(w *World) bool {
+	if !whenStableCallsDone(w) {
+		return false
+	}
+	l := w.leader()
+	return l.r.CommitIndex() == l.r.LastIndex()
+}
+
+func init() {
+	// snapshots + compaction + InstallSnapshot to a lagging follower
+	mkSnap := func(store StoreKind, trailing uint64, fsm FSMKind) func() *Scenario {
+		return func() *Scenario {
+			return &Scenario{Nodes: voters(3), Store: store, FSM: fsm, Devs: DevAll, Horizon: 500, Goal: goalConverged, AutoRestart: true,
+				Conf: func(i int, c *raft.Config) { c.TrailingLogs = trailing; c.MaxAppendEntries = 2 },
+				Steps: []Step{
+					stepApplyLeader("apply1"), stepApplyLeader("apply2"),
+					stepDo("isolate-follower", whenSettled, func(w *World) { f := w.aFollower(); w.vals["iso"] = f.id; w.isolate(f.id, true) }),
+					stepApplyLeader("apply3"), stepApplyLeader("apply4"),
+					stepDo("user-snapshot", whenSettled, func(w *World) { w.snapshot(w.leader()) }),
+					stepDo("heal", whenSettled, func(w *World) { w.isolate(w.vals["iso"], false) }),
+					stepDo("apply5", whenSettled, func(w *World) { w.apply(w.leader(), 0) }),
+				}}
+		}
+	}
+	regScenario("snap3", mkSnap(StorePlain, 0, FSMPlain))
+	regScenario("snap3-trail1", mkSnap(StorePlain, 1, FSMBatching))
+	regScenario("snap3-mono", mkSnap(StoreMonotonic, 0, FSMPlain))
+
+	// stale suffix: a follower accumulates an uncommitted suffix from a deposed leader, then gets a snapshot
+	regScenario("stale-suffix", func() *Scenario {
+		return &Scenario{Nodes: voters(3), Devs: DevAll, Horizon: 600, Goal: goalConverged, AutoRestart: true,
+			Conf: func(i int, c *raft.Config) { c.TrailingLogs = 0 },
+			Steps: []Step{
+				stepApplyLeader("apply1"),
+				// isolate the leader; it keeps accepting writes locally
+				stepDo("isolate-leader", whenSettled, func(w *World) { l := w.leader(); w.vals["old"] = l.id; w.isolate(l.id, true) }),
+				stepDo("apply-on-isolated-x2", func(w *World) bool { return w.nodes[w.vals["old"]].r.State() == raft.Leader }, func(w *World) {
+					w.apply(w.nodes[w.vals["old"]], 0)
+					w.apply(w.nodes[w.vals["old"]], 0)
+				}),
+				// the others elect a new leader and move on, then snapshot+compact
+				stepDo("apply-new-leader", func(w *World) bool {
+					l := w.stableLeader()
+					return l != nil && l.id != w.vals["old"]
+				}, func(w *World) { w.apply(w.leader(), 0) }),
+				stepDo("apply-new-leader2", func(w *World) bool {
+					l := w.stableLeader()
+					return l != nil && l.id != w.vals["old"] && l.r.CommitIndex() == l.r.LastIndex()
+				}, func(w *World) { w.apply(w.leader(), 0) }),
+				stepDo("snapshot-new-leader", func(w *World) bool {
+					l := w.stableLeader()
+					return l != nil && l.id != w.vals["old"] && l.r.CommitIndex() == l.r.LastIndex() && l.r.AppliedIndex() == l.r.LastIndex()
+				}, func(w *World) { w.snapshot(w.leader()) }),
+				stepDo("heal", func(w *World) bool {
+					l := w.stableLeader()
+					if l == nil || l.id == w.vals["old"] {
+						return false
+					}
+					for _, c := range w.calls {
+						if c.Kind == "snapshot" && !c.Done {
+							return false
+						}
+					}
+					return true
+				}, func(w *World) { w.isolate(w.vals["old"], false) }),
+				stepDo("apply-final", whenSettled, func(w *World) { w.apply(w.leader(), 0) }),
+			}}
+	})
+
+	// membership: 1 voter -> +nonvoter -> promote -> +voter -> demote -> remove -> leader removes itself
+	regScenario("member", func() *Scenario {
+		ns := []NodeSpec{{Suffrage: raft.Voter, InBootstrap: true, StartUp: true}, {Suffrage: raft.Voter, StartUp: true}, {Suffrage: raft.Voter, StartUp: true}}
+		return &Scenario{Nodes: ns, Devs: DevAll, Horizon: 700, Goal: goalConverged, AutoRestart: true,
+			Steps: []Step{
+				stepDo("add-nonvoter-n1", whenSettled, func(w *World) { w.addNonvoter(w.leader(), 1, 0) }),
+				stepDo("promote-n1", whenSettled, func(w *World) { w.addVoter(w.leader(), 1, 0) }),
+				stepDo("add-voter-n2", whenSettled, func(w *World) { w.addVoter(w.leader(), 2, 0) }),
+				stepApplyLeader("apply1"),
+				stepDo("demote-n1", whenSettled, func(w *World) { w.demote(w.leader(), 1, 0) }),
+				stepDo("promote-n1-again", whenSettled, func(w *World) { w.addVoter(w.leader(), 1, 0) }),
+				stepDo("remove-leader", whenSettled, func(w *World) { l := w.leader(); w.remove(l, l.id, 0) }),
+				stepApplyLeader("apply2"),
+			}}
+	})
+	// two racing change requests, one with a stale prevIndex
+	regScenario("member-race", func() *Scenario {
+		ns := []NodeSpec{{Suffrage: raft.Voter, InBootstrap: true, StartUp: true}, {Suffrage: raft.Voter, InBootstrap: true, StartUp: true}, {Suffrage: raft.Voter, InBootstrap: true, StartUp: true}, {Suffrage: raft.Voter, StartUp: true}}
+		return &Scenario{Nodes: ns, Devs: DevAll, Horizon: 500, Goal: goalConverged, AutoRestart: true,
+			Steps: []Step{
+				stepDo("add-n3+remove-follower", whenSettled, func(w *World) {
+					l := w.leader()
+					w.addVoter(l, 3, 0)
+					w.remove(l, w.aFollower().id, 1)
+					w.apply(l, 0)
+				}),
+				stepDo("demote-follower", whenSettled, func(w *World) { w.demote(w.leader(), w.aFollower().id, 0) }),
+				stepApplyLeader("apply2"),
+			}}
+	})
+
+	// both followers crash and restart (majority restart)
+	regScenario("majority-restart", func() *Scenario {
+		return &Scenario{Nodes: voters(3), Devs: DevAll, Horizon: 500, Goal: goalConverged, AutoRestart: true,
+			Steps: []Step{
+				stepApplyLeader("apply1"),
+				stepDo("apply2+crash-two", whenSettled, func(w *World) {
+					l := w.leader()
+					w.apply(l, 0)
+					k := 0
+					for _, n := range w.nodes {
+						if n != l {
+							w.vals[[]string{"a", "b"}[k]] = n.id
+							k++
+						}
+					}
+				}),
+				stepDo("crash-a", nil, func(w *World) { w.crash(w.nodes[w.vals["a"]]) }),
+				stepDo("crash-b", nil, func(w *World) { w.crash(w.nodes[w.vals["b"]]) }),
+				stepDo("restart-a", nil, func(w *World) { w.start(w.nodes[w.vals["a"]]) }),
+				stepDo("restart-b", nil, func(w *World) { w.start(w.nodes[w.vals["b"]]) }),
+				stepApplyLeader("apply3"),
+			}}
+	})
+
+	// Figure 8: L1 writes x locally while isolated; L2 elected by the others writes y locally and is isolated;
+	// L1 re-elected replicates x to the third server.
+	regScenario("fig8", func() *Scenario {
+		return &Scenario{Nodes: voters(3), Devs: DevAll, Horizon: 700, Goal: goalConverged, AutoRestart: true,
+			Steps: []Step{
+				stepDo("isolate-L1", whenSettled, func(w *World) { l := w.leader(); w.vals["L1"] = l.id; w.isolate(l.id, true) }),
+				stepDo("x-on-L1", func(w *World) bool { return w.nodes[w.vals["L1"]].r.State() == raft.Leader }, func(w *World) { w.apply(w.nodes[w.vals["L1"]], 0) }),
+				stepDo("y-on-L2-isolated", func(w *World) bool {
+					l := w.stableLeader()
+					return l != nil && l.id != w.vals["L1"] && w.netIdle()
+				}, func(w *World) {
+					l := w.leader()
+					w.vals["L2"] = l.id
+					w.isolate(l.id, true)
+					w.apply(l, 0)
+				}),
+				stepDo("heal-L1", func(w *World) bool { return w.netIdle() }, func(w *World) {
+					w.isolate(w.vals["L1"], false)
+					// keep L2 isolated
+					w.isolate(w.vals["L2"], true)
+				}),
+				stepDo("heal-L2", func(w *World) bool {
+					l := w.stableLeader()
+					return l != nil && l.id != w.vals["L2"] && w.netIdle()
+				}, func(w *World) { w.isolate(w.vals["L2"], false) }),
+				stepDo("apply-final", whenSettled, func(w *World) { w.apply(w.leader(), 0) }),
+			}}
+	})
+
+	// leadership transfer with concurrent writes
+	regScenario("transfer", func() *Scenario {
+		return &Scenario{Nodes: voters(3), Devs: DevAll, Horizon: 500, Goal: goalConverged, AutoRestart: true,
+			Steps: []Step{
+				stepApplyLeader("apply1"),
+				stepDo("transfer+apply", whenSettled, func(w *World) { l := w.leader(); w.transfer(l, -1); w.apply(l, 0) }),
+				stepApplyLeader("apply3"),
+				stepDo("transfer-to-named", whenSettled, func(w *World) { l := w.leader(); w.transfer(l, w.aFollower().id) }),
+				stepApplyLeader("apply4"),
+			}}
+	})
+}
+
+func init() {
+	// As stale-suffix, but the deposed leader keeps trailing logs (as the default configuration does), later becomes
+	// leader again and brings a brand-new server up to date from its own log.
+	regScenario("stale-suffix-trail", func() *Scenario {
+		ns := append(voters(3), NodeSpec{Suffrage: raft.Nonvoter, StartUp: true})
+		notOld := func(w *World) *Node {
+			l := w.stableLeader()
+			if l == nil || l.id == w.vals["old"] {
+				return nil
+			}
+			return l
+		}
+		return &Scenario{Nodes: ns, Devs: DevAll, Horizon: 900, Goal: goalConverged, AutoRestart: true,
+			Conf: func(i int, c *raft.Config) {
+				c.MaxAppendEntries = 2
+				c.TrailingLogs = 0
+				if i == 0 {
+					c.TrailingLogs = 64
+				}
+			},
+			Steps: []Step{
+				stepApplyLeader("apply1"),
+				stepDo("isolate-leader", whenSettled, func(w *World) { l := w.leader(); w.vals["old"] = l.id; w.isolate(l.id, true) }),
+				stepDo("apply-on-isolated-x2", func(w *World) bool { return w.nodes[w.vals["old"]].r.State() == raft.Leader }, func(w *World) {
+					w.apply(w.nodes[w.vals["old"]], 0)
+					w.apply(w.nodes[w.vals["old"]], 0)
+				}),
+				stepDo("apply-new-leader", func(w *World) bool { return notOld(w) != nil }, func(w *World) { w.apply(w.leader(), 0) }),
+				stepDo("apply-new-leader2", func(w *World) bool { l := notOld(w); return l != nil && l.r.CommitIndex() == l.r.LastIndex() }, func(w *World) { w.apply(w.leader(), 0) }),
+				stepDo("snapshot-new-leader", func(w *World) bool {
+					l := notOld(w)
+					return l != nil && l.r.CommitIndex() == l.r.LastIndex() && l.r.AppliedIndex() == l.r.LastIndex()
+				}, func(w *World) { w.snapshot(w.leader()) }),
+				stepDo("heal", func(w *World) bool {
+					if notOld(w) == nil {
+						return false
+					}
+					for _, c := range w.calls {
+						if c.Kind == "snapshot" && !c.Done {
+							return false
+						}
+					}
+					return true
+				}, func(w *World) { w.isolate(w.vals["old"], false) }),
+				stepDo("apply-after-heal", whenSettled, func(w *World) { w.apply(w.leader(), 0) }),
+				stepDo("transfer-to-old", func(w *World) bool { return whenSettled(w) && w.converged() }, func(w *World) { w.transfer(w.leader(), w.vals["old"]) }),
+				stepDo("add-fresh-server", func(w *World) bool { return whenSettled(w) && w.leader().id == w.vals["old"] }, func(w *World) { w.addNonvoter(w.leader(), 3, 0) }),
+				stepDo("apply-final", whenSettled, func(w *World) { w.apply(w.leader(), 0) }),
+			}}
+	})
+}
